@@ -233,6 +233,7 @@ def build(case):
         order = sorted(but)
         rng.shuffle(order)
         new.but = order
+        new.but_ordered = rng.random() < 0.7
         deck.cells.append(new)
         level0.append(new)
         chainable.append(new)
